@@ -88,6 +88,7 @@ class Process:
         self.__changeset = changeset
         self.__clear = clear
         self.__failed = False
+        self.__gitting = False
         self.__msg = 'unspecified'
         self.__request = request
         self.__repo = dawgie.context.ae_base_path
@@ -102,7 +103,8 @@ class Process:
 
     def failure(self, _fail):
         if self.__request is not None:
-            if dawgie.context.fsm.state == 'gitting':
+            # only leave the gitting state if this submission entered it
+            if self.__gitting and dawgie.context.fsm.state == 'gitting':
                 dawgie.context.fsm.running_trigger()
             else:
                 LOG.debug(
@@ -170,6 +172,7 @@ class Process:
 
         # Go To: gitting state
         dawgie.context.fsm.gitting_trigger()
+        self.__gitting = True
         return None
 
     def step_2(self, _result):
